@@ -17,7 +17,9 @@ Scenario (JSON):
             "trusted": ["A"] (roots in the configured file/dir; "trusted_file"/"trusted_dir" override per source),
             "upstream_cert", "store_cap"},
    "origins": [{"host", "port", "cert": pki spec, "alpn": [..]|None, "tls12": bool, "delay": s,
-                "refuse": bool, "cuts": [...], "gaps": [...], "seg": n, "force_offers": [..]|None}],
+                "refuse": bool, "cuts": [...], "gaps": [...], "seg": n, "force_offers": [..]|None,
+                "hangup": None|{"when": "flight"|"done", "how": "fin"|"close_notify"|"close_notify_fin", "delay": s}}],
+   "hook_delay": {hook name: seconds a slow addon spends in that hook} (optional),
    "flows": [{"start": s, "host", "port", "sni": str|None, "verify": name checked by the client,
               "backend": "py"|"ossl", "offers": [..], "tls12": bool, "cuts", "gaps", "seg", "gap",
               "req": bool, "outer": {"sni", "verify", "offers", "cuts", "gaps"} (swp only)}]}
@@ -426,9 +428,12 @@ class TlsPipe:
         self.lower.fin()
 
 
-async def do_handshake(ep, pipe, *, cuts=(), gaps=(), seg=0, gap=0.0):
-    """Drive a handshake to completion.  -> (ok, reason)"""
+async def do_handshake(ep, pipe, *, cuts=(), gaps=(), seg=0, gap=0.0, after_flight=None):
+    """Drive a handshake to completion.  -> (ok, reason)
+    ``after_flight`` (optional): ``await after_flight(k, state)`` once the k-th flight (k = 1, 2, ...) of this
+    endpoint has been handed to the pipe; state is "want" | "done" | "fail"."""
     first = True
+    flights = 0
     while True:
         st, why = ep.handshake()
         out = ep.pull()
@@ -441,6 +446,9 @@ async def do_handshake(ep, pipe, *, cuts=(), gaps=(), seg=0, gap=0.0):
             except PipeClosed:
                 return False, why or "pipe_closed"
             first = False
+            flights += 1
+            if after_flight is not None:
+                await after_flight(flights, st)
         if st == "done":
             return True, None
         if st == "fail":
@@ -570,7 +578,9 @@ def _hostport(host: str, port: int) -> str:
     return f"[{host}]:{port}" if ":" in host else f"{host}:{port}"
 
 
-def run(sc: dict, keep_log: bool = False) -> Obs:
+def run(sc: dict, keep_log: bool = False, in_world=None) -> Obs:
+    """``in_world`` (optional): ``await in_world(w, obs)`` inside the still running world once all client
+    connections have finished (unset: no effect)."""
     obs = Obs()
     opts_in = sc.get("opts", {})
     trusted = list(opts_in.get("trusted", ["A"]))
@@ -602,6 +612,7 @@ def run(sc: dict, keep_log: bool = False) -> Obs:
         confdir, obs.cafile = custom_confdir()
     origins = {(o["host"].lower(), int(o["port"])): o for o in reversed(sc.get("origins", []))}
     flows = sc.get("flows", [])
+    hook_delay = dict(sc.get("hook_delay") or {})
     for i, fl in enumerate(flows):
         obs.flows.append({"i": i, "stage": "init", "connect_status": None, "outer": None, "hs": None, "why": None,
                           "alpn": None, "cert": None, "der": None, "version": None, "status": None, "body": None,
@@ -627,6 +638,11 @@ def run(sc: dict, keep_log: bool = False) -> Obs:
                     o = origins.get((str(srv.address[0]).lower(), srv.address[1]))
                     if o and o.get("force_offers") is not None:
                         srv.alpn_offers = [x.encode() for x in o["force_offers"]]
+            # a slow addon: sc["hook_delay"] = {hook name: seconds} (unset: no effect)
+            d = hook_delay.get(name)
+            if d:
+                ev("hook_delay", name)
+                return asyncio.sleep(float(d))
             return None
 
         def listener(t, name, data):
@@ -641,7 +657,8 @@ def run(sc: dict, keep_log: bool = False) -> Obs:
                 c = data.conn
                 s = data.context.server
                 detail = {"sni": c.sni, "alpn": c.alpn, "error": c.error, "layers": len(data.context.layers),
-                          "server_alpn": s.alpn, "server_established": bool(s.tls_established)}
+                          "server_alpn": s.alpn, "server_established": bool(s.tls_established),
+                          "server_state": int(s.state.value)}
             elif name == "error":
                 detail = {"error": getattr(getattr(data, "error", None), "msg", None)}
             elif name == "tcp_error":
@@ -707,8 +724,22 @@ def run(sc: dict, keep_log: bool = False) -> Obs:
                 ch = pki_a.chain(o["cert"])
                 ep = PyTls(origin_ctx(ch.certfile, o.get("alpn"), bool(o.get("tls12"))), server_side=True)
                 pipe = ConnPipe(conn)
+                # fault "the origin hangs up around the end of its handshake" (unset: no effect).
+                #   when "flight": TCP FIN right after the origin's FIRST flight (in TLS 1.3 that flight ends with the
+                #                  origin's Finished; the origin still reads the peer's Finished afterwards);
+                #   when "done"  : close_notify and/or FIN as soon as the origin's own handshake has completed.
+                hang = o.get("hangup") or None
+                after_flight = None
+                if hang and hang.get("when") == "flight":
+                    async def after_flight(k, st):
+                        if k == 1 and st == "want":
+                            if float(hang.get("delay", 0.0)) > 0:
+                                await asyncio.sleep(float(hang["delay"]))
+                            rec["hangup"] = "flight"
+                            ev("origin_hangup", rec["host"], rec["port"], "flight", "fin")
+                            pipe.fin()
                 ok, why = await do_handshake(ep, pipe, cuts=o.get("cuts", ()), gaps=o.get("gaps", ()),
-                                             seg=int(o.get("seg", 0)), gap=0.0)
+                                             seg=int(o.get("seg", 0)), gap=0.0, after_flight=after_flight)
                 rec["hs"], rec["why"] = ok, why
                 rec["sni"] = getattr(ep.obj, "sim_sni", None)
                 rec["order_done"] = len(obs.events)
@@ -721,6 +752,19 @@ def run(sc: dict, keep_log: bool = False) -> Obs:
                     return
                 app = TlsPipe(ep, pipe, seg=int(o.get("seg", 0)))
                 replied = False
+                if hang and hang.get("when") == "done":
+                    if float(hang.get("delay", 0.0)) > 0:
+                        await asyncio.sleep(float(hang["delay"]))
+                    how = hang.get("how", "fin")
+                    rec["hangup"] = "done"
+                    ev("origin_hangup", rec["host"], rec["port"], "done", how)
+                    if how in ("close_notify", "close_notify_fin"):
+                        ep.close_notify()
+                        await pipe.send(ep.pull())
+                    if how in ("fin", "close_notify_fin"):
+                        pipe.fin()
+                if rec.get("hangup"):
+                    replied = True      # an origin that has closed its sending side only drains what still arrives
                 buf = bytearray()
                 while True:
                     d = await app.recv()
@@ -881,6 +925,8 @@ def run(sc: dict, keep_log: bool = False) -> Obs:
         cs = w.master.addons.get("tlsconfig").certstore
         obs.ca_subject = cs.default_ca._cert.subject.rfc4514_string()
         obs.ca_der_chain = [c._cert.public_bytes(serialization.Encoding.DER) for c in cs.default_chain_certs]
+        if in_world is not None:
+            await in_world(w, obs)
 
     # ---- process-global seams of this executor -----------------------------------------------
     from mitmproxy import certs as mcerts
